@@ -14,6 +14,7 @@ package interp
 //@   props C06
 //@   opt safety = off
 //@   opt ghost-calls = true
+//@   opt locks = track
 //@   opt opaque-calls = *
 //@   opt preserve = F_interp_frame_deferred, F_interp_frame_id, F_interp_Interpreter_id, SE_Int___reflect_Value, SE_Int_reflect_Value
 //@   requires f != nil
